@@ -330,7 +330,7 @@ func jdepth(v *jval) (d int, both bool, emptyAfterKey bool, scalarAfterContainer
 
 func TestC16(t *testing.T) {
 	runWitnesses(t, "C16")
-	runProp(t, "map", 20000, 2000000, func(t *rapid.T) {
+	runProp(t, "map", 200000, 2000000, func(t *rapid.T) {
 		c := &c16Case{}
 		var sb strings.Builder
 		n := 1
@@ -373,7 +373,7 @@ func TestC16(t *testing.T) {
 		}
 		c16Map.run(t, c)
 	})
-	runProp(t, "malformed", 20000, 1000000, func(t *rapid.T) {
+	runProp(t, "malformed", 200000, 1000000, func(t *rapid.T) {
 		v := genJval(t, 3)
 		if v.K != "obj" && v.K != "arr" {
 			v = &jval{K: "arr", Items: []*jval{v}}
